@@ -79,6 +79,30 @@ def has_clash(reg):
     return False
 
 
+def prefix_named_cases():
+    """Sibling modules whose names are prefixes of one another (x, x1, x10), each with its own bench_group
+    (different display names / ignore), in every registration order of the groups; duplicate raw names among
+    sibling benchmarks."""
+    import itertools
+    out = []
+    names = ["x1", "x10", "x"]
+    for order in itertools.permutations(range(3)):
+        for flag in "ny":
+            r = T.Reg()
+            for nm in names:
+                r.bench("cr::" + nm, "f")
+                r.bench("cr::" + nm + "::inner", "g", kind="i", vals=[1, 2])
+            r.bench("cr::x1", "f")          # same raw name twice in one module
+            r.bench("cr", "f")
+            gs = [("x1", "One", "t"), ("x10", "Ten", "-"), ("x", "Ex", "f")]
+            for i in order:
+                nm, disp, o = gs[i]
+                r.group("cr", nm, display=disp, opts=o)
+            r.group("cr::x10", "inner", display="In Ten", opts="t")
+            out.append(r.line("TRL", ign=flag))
+    return out
+
+
 def nt(case, model):
     return "=C" in model
 
@@ -169,6 +193,7 @@ def streams(tier, rng):
     out = []
     if corpus:
         out.append(Stream("corpus", "c12", corpus, nontrivial=nt))
+    out.append(Stream("prefix-named-modules", "c12", prefix_named_cases(), nontrivial=nt))
     out.append(Stream("synthetic-permutations", "c12", syn, nontrivial=nt,
                       hist={"cases": len(syn), "name_clash_cases_set_aside": len(clash)}))
     out.append(Stream("real-crates", "c12", real, nontrivial=nt, impl_runner=build_then_run(progs), impl_timeout=900,
